@@ -253,7 +253,11 @@ theorem rules_on_positive_grid {cfg : Cfg} (hR : 0 < cfg.rule) (hH : 0 < cfg.hyd
     let s := (runSim cfg simTime prevTime vals).1
     (∀ r ∈ s.ruleLog, ∃ k : Int, 1 ≤ k ∧ r = k * cfg.rule) ∧ s.ruleLog.Pairwise (· < ·) ∧
       (∀ r ∈ s.ruleLog, r ≤ s.prevTime) := by
-  rw [runSim_eq]
+  by_cases hn : NothingLeft cfg simTime
+  · rw [runSim_done prevTime vals hn]
+    have : (startState cfg simTime prevTime vals).ruleLog = [] := rfl
+    simp [this]
+  rw [runSim_eq prevTime vals hn]
   have hran := runLoop_ran hR hH ((cfg.duration - (startState cfg simTime prevTime vals).prevTime).toNat + 1)
     (simTime == 0) _ [] (startState_inv hR vals h)
   have heq : runFuel cfg (startState cfg simTime prevTime vals).prevTime =
@@ -281,12 +285,14 @@ theorem presolve_fuel_sufficient {cfg : Cfg} (hR : 0 < cfg.rule) (first : Bool) 
 /-- **(iv) fuel sufficiency of `run_sim`'s loop**: with `runFuel` or more the result is the same, i.e. the loop ends
 because `sim_time > duration` -/
 theorem runSim_fuel_sufficient {cfg : Cfg} (hR : 0 < cfg.rule) (hH : 0 < cfg.hyd) {simTime prevTime : Int} (vals : Vals)
-    (h : StartOK simTime prevTime) (extra : Nat) :
+    (h : StartOK simTime prevTime) (hleft : ¬ NothingLeft cfg simTime) (extra : Nat) :
     runLoop cfg (runFuel cfg (startState cfg simTime prevTime vals).prevTime + extra) (simTime == 0)
         (startState cfg simTime prevTime vals) [] = runSim cfg simTime prevTime vals := by
-  rw [runSim_eq]
+  rw [runSim_eq prevTime vals hleft]
   exact runLoop_fuel hR hH _ _ _ _ _ (startState_inv hR vals h) (by simp only [runFuel, runMeasure]; omega)
     (by simp only [runFuel, runMeasure]; omega)
+
+example : ¬ NothingLeft cfgEx 0 ∧ ¬ NothingLeft cfgEx 7200 ∧ NothingLeft cfgEx 18000 := by decide
 
 /-- **(v) `value_persists`**: a key written by no control due in this pass and by no rule keeps its value -/
 theorem value_persists (cfg : Cfg) (first : Bool) (s : St) (k : Nat)
